@@ -166,7 +166,7 @@ func c17WorkDir() (string, error) {
 
 // c17SysRootsKind: the kinds whose cases depend on what the process's system trust store contains.
 func c17SysRootsKind() bool {
-	return len(os.Args) > 1 && (os.Args[1] == "tls" || os.Args[1] == "tlscfg" || os.Args[1] == "upcfg")
+	return len(os.Args) > 1 && (os.Args[1] == "tls" || os.Args[1] == "tlscfg" || os.Args[1] == "upcfg" || os.Args[1] == "uprouter")
 }
 
 // c17PoolIs: pool holds exactly the given certificates (compared by raw subject; every harness CA has its own).
@@ -964,6 +964,68 @@ func tlsUpstreamCase(f map[string]string) string {
 	return "start=ok x=fail"
 }
 
+// c17ProbeListener sends one query to a listener of the router (tls / https on an abstract unix socket, quic on a
+// loopback udp port) with the client credentials of ccfg; served = the marked answer came back.
+func c17ProbeListener(proto, lname string, ccfg *tls.Config) (served bool, herr string) {
+	switch proto {
+	case "tls":
+		raw, err := net.DialTimeout("unix", lname, 2*time.Second)
+		if err != nil {
+			return false, "HARNESS-ERROR dial router " + err.Error()
+		}
+		tc := tls.Client(raw, ccfg)
+		defer tc.Close()
+		tc.SetDeadline(time.Now().Add(3 * time.Second))
+		if err := tc.Handshake(); err == nil {
+			served = c17StreamQuery(tc)
+		}
+	case "https":
+		ccfg.NextProtos = []string{"h2", "http/1.1"}
+		tr := &http.Transport{
+			DialContext: func(ctx context.Context, _, _ string) (net.Conn, error) {
+				return (&net.Dialer{}).DialContext(ctx, "unix", lname)
+			},
+			TLSClientConfig:   ccfg,
+			ForceAttemptHTTP2: true,
+		}
+		defer tr.CloseIdleConnections()
+		q := hx.BuildQuery(0, []byte("\x04c17t\x04test"), 1, 1, true)
+		ctx, cancel := context.WithTimeout(context.Background(), 3*time.Second)
+		req, _ := http.NewRequestWithContext(ctx, http.MethodGet,
+			"https://localhost/dns-query?dns="+base64.RawURLEncoding.EncodeToString(q), nil)
+		req.Header.Set("Accept", "application/dns-message")
+		resp, err := tr.RoundTrip(req)
+		if err == nil {
+			body, _ := io.ReadAll(io.LimitReader(resp.Body, 65535))
+			resp.Body.Close()
+			served = resp.StatusCode == 200 && bytes.Contains(body, c17mark[:])
+		}
+		cancel()
+	case "quic":
+		ccfg.NextProtos = []string{"doq"}
+		ctx, cancel := context.WithTimeout(context.Background(), 3*time.Second)
+		qc, err := quic.DialAddr(ctx, lname, ccfg, &quic.Config{HandshakeIdleTimeout: 2 * time.Second})
+		if err == nil {
+			s, err := qc.OpenStreamSync(ctx)
+			if err == nil {
+				q := hx.BuildQuery(0, []byte("\x04c17t\x04test"), 1, 1, true)
+				out := binary.BigEndian.AppendUint16(nil, uint16(len(q)))
+				s.SetDeadline(time.Now().Add(3 * time.Second))
+				if _, err := s.Write(append(out, q...)); err == nil {
+					s.Close()
+					r, _ := io.ReadAll(io.LimitReader(s, 65535))
+					served = bytes.Contains(r, c17mark[:])
+				}
+			}
+			qc.CloseWithError(0, "")
+		}
+		cancel()
+	default:
+		return false, "HARNESS-ERROR bad proto"
+	}
+	return served, ""
+}
+
 func tlsListenerCase(f map[string]string) string {
 	pki, err := c17pki()
 	if err != nil {
@@ -1019,62 +1081,9 @@ func tlsListenerCase(f map[string]string) string {
 	}
 	defer closeRouter()
 
-	served := false
-	switch proto {
-	case "tls":
-		raw, err := net.DialTimeout("unix", lname, 2*time.Second)
-		if err != nil {
-			return "HARNESS-ERROR dial router " + err.Error()
-		}
-		tc := tls.Client(raw, ccfg)
-		defer tc.Close()
-		tc.SetDeadline(time.Now().Add(3 * time.Second))
-		if err := tc.Handshake(); err == nil {
-			served = c17StreamQuery(tc)
-		}
-	case "https":
-		ccfg.NextProtos = []string{"h2", "http/1.1"}
-		tr := &http.Transport{
-			DialContext: func(ctx context.Context, _, _ string) (net.Conn, error) {
-				return (&net.Dialer{}).DialContext(ctx, "unix", lname)
-			},
-			TLSClientConfig:   ccfg,
-			ForceAttemptHTTP2: true,
-		}
-		defer tr.CloseIdleConnections()
-		q := hx.BuildQuery(0, []byte("\x04c17t\x04test"), 1, 1, true)
-		ctx, cancel := context.WithTimeout(context.Background(), 3*time.Second)
-		req, _ := http.NewRequestWithContext(ctx, http.MethodGet,
-			"https://localhost/dns-query?dns="+base64.RawURLEncoding.EncodeToString(q), nil)
-		req.Header.Set("Accept", "application/dns-message")
-		resp, err := tr.RoundTrip(req)
-		if err == nil {
-			body, _ := io.ReadAll(io.LimitReader(resp.Body, 65535))
-			resp.Body.Close()
-			served = resp.StatusCode == 200 && bytes.Contains(body, c17mark[:])
-		}
-		cancel()
-	case "quic":
-		ccfg.NextProtos = []string{"doq"}
-		ctx, cancel := context.WithTimeout(context.Background(), 3*time.Second)
-		qc, err := quic.DialAddr(ctx, lname, ccfg, &quic.Config{HandshakeIdleTimeout: 2 * time.Second})
-		if err == nil {
-			s, err := qc.OpenStreamSync(ctx)
-			if err == nil {
-				q := hx.BuildQuery(0, []byte("\x04c17t\x04test"), 1, 1, true)
-				out := binary.BigEndian.AppendUint16(nil, uint16(len(q)))
-				s.SetDeadline(time.Now().Add(3 * time.Second))
-				if _, err := s.Write(append(out, q...)); err == nil {
-					s.Close()
-					r, _ := io.ReadAll(io.LimitReader(s, 65535))
-					served = bytes.Contains(r, c17mark[:])
-				}
-			}
-			qc.CloseWithError(0, "")
-		}
-		cancel()
-	default:
-		return "HARNESS-ERROR bad proto"
+	served, herr := c17ProbeListener(proto, lname, ccfg)
+	if herr != "" {
+		return herr
 	}
 	// a query that reached the fake upstream was served even if the answer got lost
 	useen.mu.Lock()
